@@ -238,3 +238,100 @@ def c07(ctx):
 def replay(ctx, path):
     print(open(path).read())
     return 0
+
+
+# ---------------------------------------------------------------- C18 named edits
+
+def s1_order(case):
+    out = None; on = False
+    for l in case.lines:
+        if l.startswith('dump '):
+            on = l.split()[1] == 'S1'
+            if on:
+                out = []
+        elif l.startswith('f ') and on:
+            out.append(int(kv(l)['id']))
+    return out
+
+
+def edit_check(ctx, cases):
+    stats = collections.Counter()
+    distinct = set()
+    for c in cases:
+        m1 = next((l for l in c.mlines if l.startswith('m1 ')), None)
+        if m1 is None:
+            ctx.violations.append(('model produced no S1 record (case %s)' % c.key, write_replay(ctx, 'case_%s.txt' % c.key, c.text()), False))
+            continue
+        order = s1_order(c)
+        bind = c.bind.split()
+        has_dir = any(p['replace'] != '-' or p['before'] != '-' or p['after'] != '-' for p in c.provs)
+        if has_dir:
+            distinct.add('\n'.join(l for l in c.lines if l.startswith('e ')))
+        mt = m1.split()
+        if bind[1] in ('hang',) or bind[1].startswith('panic'):
+            stats['impl-' + bind[1]] += 1
+            ctx.violations.append(('Bind %s on a list with named edits (case %s); model says %s' % (bind[1], c.key, ' '.join(mt[1:])),
+                                   write_replay(ctx, 'case_%s.txt' % c.key, c.text()), True))
+            continue
+        if mt[1] == 'ok':
+            want = [] if mt[2] == '-' else [int(x) for x in mt[2].split(',')]
+            if order is None:
+                stats['impl-error-model-ok'] += 1
+                ctx.violations.append(('model edits the list, implementation failed before S1: %s (case %s)' % (' '.join(bind[:3]), c.key),
+                                       write_replay(ctx, 'case_%s.txt' % c.key, c.text()), True))
+            elif order != want:
+                stats['order-diff'] += 1
+                ctx.violations.append(('edited order differs (case %s): impl %s model/spec %s' % (c.key, order, want),
+                                       write_replay(ctx, 'case_%s.txt' % c.key, c.text()), True))
+            else:
+                stats['order-same'] += 1
+        else:
+            cls = mt[2]
+            if cls in ('DEGENERATE', 'FUEL'):
+                stats['model-' + cls.lower()] += 1
+                ctx.violations.append(('list shape outside the proved guard of edit_spec (%s), implementation gave %s (case %s)'
+                                       % (cls, order if order is not None else ' '.join(bind[:3]), c.key),
+                                       write_replay(ctx, 'case_%s.txt' % c.key, c.text()), True))
+            elif order is not None or len(bind) < 3 or bind[2] != cls:
+                stats['error-diff'] += 1
+                ctx.violations.append(('model says %s, implementation: %s (case %s)' % (cls, ' '.join(bind[:3]) if order is None else order, c.key),
+                                       write_replay(ctx, 'case_%s.txt' % c.key, c.text()), True))
+            else:
+                stats['error-same-' + cls] += 1
+        pair = next((l for l in c.lines if l.startswith('pair ')), None)
+        if pair == 'pair diff':
+            stats['pair-diff'] += 1
+            ctx.violations.append(('chain with named edits behaves differently from the hand-edited chain (case %s)' % c.key,
+                                   write_replay(ctx, 'case_%s.txt' % c.key, c.text()), True))
+        elif pair:
+            stats['pair-same'] += 1
+        if len(ctx.samples) < 3 and has_dir and order:
+            ctx.samples.append({'case': c.key, 'list': [l for l in c.lines if l.startswith('e ')], 'edited_order': order})
+    ctx.cov['evaluations'] = ctx.cov.get('evaluations', 0) + len(cases)
+    ctx.cov['programs'] = ctx.cov.get('programs', 0) + len(cases)
+    ctx.cov['distinct_nontrivial'] = ctx.cov.get('distinct_nontrivial', 0) + len(distinct)
+    ctx.cov['traces_validated_against_impl'] = ctx.cov.get('traces_validated_against_impl', 0) + stats['order-same'] + sum(v for k, v in stats.items() if k.startswith('error-same'))
+    ctx.cov.setdefault('outcomes', {}).update({k: ctx.cov.get('outcomes', {}).get(k, 0) + v for k, v in stats.items()})
+
+
+@prop('C18')
+def c18(ctx):
+    ob, dis, details = proof_obligations(ctx, 'C18')
+    n = 2000 if ctx.tier == 'quick' else 20000
+    cases = load_cases(ctx, 'edit', n)
+    if cases is not None:
+        edit_check(ctx, cases)
+    if ctx.tier == 'thorough':
+        cases = load_cases(ctx, 'editall', 4)
+        if cases is not None:
+            edit_check(ctx, cases)
+            ctx.cov['exhaustive'] = True
+            ctx.notes.append('editall: every list of length<=4 over origins {none,A,B} x directives {none,rep/bef/aft x A,B}')
+    if len(ctx.violations) > 6:
+        ctx.notes.append('%d violating cases; first 6 reported' % len(ctx.violations))
+        ctx.violations = ctx.violations[:6]
+    rule = ('lists of 2..7 providers func(T0) T0 with names A,B,C and ReplaceNamed/InsertBeforeNamed/InsertAfterNamed directives '
+            '(blocks, adjacency, missing and duplicated names, two tags); the order after stage S1 (dump hook) is compared with the '
+            'Lean model editAll; each case is also re-run hand-written in the edited order and must behave identically; '
+            'non-trivial = has at least one directive; distinct = distinct (origin, directive) lists')
+    return finish(ctx, 'proof', ob, dis, details, rule)
